@@ -51,4 +51,6 @@ def conditions(tier, seed):
                         bound='1..2 parses of a multi-line single-edit variant (programs %d mod %d x every token x 4 edits) followed by a valid multi-line program (rotating through the corpus): '
                               'positions are those of the last text alone' % (sh, ns),
                         case_split=['program', 'token', 'edit', 'repetitions'], realised=['program text'], twin=False))
+    out.append(Cond('scanner_backtracking', 'c13_redos.py', dict(scanner='oal', property='C13'), kind='script', timeout=900,
+                    bound='every unbounded repetition in every t_* regex of the OAL scanner: no string of 1..6 characters is matched by two alternatives of the repeated group or readable as one and as several iterations (z3 regex theory); candidates replayed on the real parser with the witness pumped 48 times'))
     return out
